@@ -148,11 +148,20 @@ pub fn record_translate(out_path: &str, count: u64) {
     let m1 = V::Map(vec![(V::Str("m".into()), V::Int(1))]);
     specials.push(V::Map(vec![(V::Str("j".into()), V::Map(vec![(V::Str("k".into()), m1.clone()), (V::Str("o".into()), V::Seq(vec![V::Map(vec![(V::Str("p".into()), V::Int(1))])])),
         (V::Str("x".into()), V::Seq(vec![m1.clone(), V::Int(3)])), (V::Str("l".into()), V::Int(5))]))]));
+    // collections beyond 4096 entries (MessagePack writes the count it is told into the header): only between
+    // the formats whose readers here are the harness's own (the trees are large)
+    let n_small = specials.len();
+    specials.push(V::Seq((0..5000).map(|k| V::Int(k % 7)).collect()));
+    specials.push(V::Map((0..4200).map(|k| (V::Str(format!("k{k}")), V::Int(k))).collect()));
     let mut vid = 0u64;
     for i in 0..count + specials.len() as u64 {
         let mut rng = Rng::derive(seed, "data", i);
         for from in FMTS {
             for to in FMTS {
+                let large = (i as usize) >= n_small && (i as usize) < specials.len();
+                if large && !(matches!(from, "msgpack" | "json") && matches!(to, "msgpack" | "json")) {
+                    continue;
+                }
                 let v = if (i as usize) < specials.len() { specials[i as usize].clone() } else { gen_for_pair(&mut rng, from, to, i) };
                 vid += 1;
                 o.rec(json!({"ev": "value", "vid": vid}));
